@@ -3,6 +3,7 @@ package c19
 import (
 	"fmt"
 	"os"
+	"strings"
 	"testing"
 
 	"github.com/hneemann/parser2/example"
@@ -298,6 +299,41 @@ func TestExhaustiveBoolLetIf(t *testing.T) {
 		}
 	}
 	evid.R.SetExtra("bool_let_space", n5*n6)
+	// "let x=E1; let x=E2; E3": the same name declared again in the same function body.
+	// The generator may reject that (the repository's does: redeclaration); if it accepts
+	// it, the inner declaration is the one in scope - anything else is a wrong value.
+	var rejected, accepted int64
+	for i := int64(0); i < int64(len(boolLeaves)); i++ {
+		for j := int64(0); j < n6; j++ {
+			for l := int64(0); l < n6; l++ {
+				k++
+				if k%classes != class {
+					continue
+				}
+				tree := &Node{Kind: "let", Op: "x", L: slot(i, boolLeaves), R: &Node{Kind: "let", Op: "x", L: slot(j, withX), R: slot(l, withX)}}
+				c := BoolCase{Tree: tree, Text: boolGrammar.Render(tree)}
+				gens := boolGensFor(k)
+				var live []boolGen
+				for _, bg := range gens {
+					if _, _, err := bg.g.Generate(c.Text, "a", "b", "c"); err != nil {
+						if !strings.Contains(err.Error(), "redeclar") {
+							evid.Fail(t, prop, "bool", "", c, "%s: Generate(%q) failed: %v", bg.name, c.Text, err)
+						}
+						rejected++
+						continue
+					}
+					accepted++
+					live = append(live, bg)
+				}
+				if msg := checkBool(c, live); msg != "" {
+					evid.Fail(t, prop, "bool", "", c, "the same name is declared twice and the program is accepted, but the inner declaration is not the one in scope: %s", msg)
+				}
+				recordBool(c, "bool_exhaustive_let_same_name_twice")
+			}
+		}
+	}
+	evid.R.SetExtra("bool_let_twice_rejected_as_redeclaration", rejected)
+	evid.R.SetExtra("bool_let_twice_accepted", accepted)
 	if !evid.Thorough() {
 		return
 	}
